@@ -565,6 +565,21 @@ Proof.
   - rewrite (IH _ _ r j Hr1 Hv2 K1 Hs Hm2). assumption.
 Qed.
 
+
+(* a second registration under a reference whose schedule is still queued is refused and changes
+   nothing that the live schedule depends on: it stays queued, known, cancellable *)
+Lemma duplicate_registration_keeps_live c s r j t first now :
+  reach c s -> jget r (s_jobs s) = Some j ->
+  let s' := fst (push_new s r t first now) in
+  snd (push_new s r t first now) = EExists /\
+  s_jobs s' = s_jobs s /\ mem r (s_keys s') = true /\
+  snd (step s' (OCancel r)) = EOk /\ jget r (s_jobs (fst (step s' (OCancel r)))) = None.
+Proof.
+  intros Hr Hg. unfold push_new. rewrite Hg. cbn [fst snd s_jobs s_keys].
+  split; [reflexivity|]. split; [reflexivity|]. split; [apply mem_add_key|].
+  cbn [step s_keys s_jobs]. rewrite mem_add_key. cbn [negb]. rewrite Hg. cbn. split; [reflexivity|apply jget_jdel].
+Qed.
+
 (* ------------------------------------------------------------------ pausing a one-shot loses it *)
 
 Definition lost_once_ops : list op := [OScheduleOnce 0%nat 200 10; OPause 0%nat; OResume 0%nat 20].
